@@ -119,7 +119,7 @@ def family():
                                         f("r3", "In6", default={"v": 3})]), "defaults")
     add("rec_defaults7", _rec("Dflt7", [f("k", "int"), f("grid", {"type": "array", "items": {"type": "array", "items": "int"}}, default=[[1, 2], [3]]),
                                         f("idx", {"type": "map", "values": {"type": "array", "items": "string"}}, default={"a": ["x", "y"]})]),
-        "defaults")
+        "nesteddefaults", "heavy")
     add("rec_defaults_bytes", _rec("Dfb", [f("b", "bytes", default="\u00ff\u0001"), f("fx", _fixed("Fdb", 2), default="\u0000\u00fe"),
                                            f("fl", "float", default=1.5), f("k", "int", default=7)]), "bytesdefault")
     add("rec_defaults2", _rec("Dflt2", [f("s", "string", default="dd"), f("r", "int"),
@@ -151,7 +151,7 @@ def family():
     add("rec_two_children", _rec("Par", [f("a", _rec("ChA", [f("x", "int")])), f("b", _rec("ChB", [f("y", "string"), f("e", _enum("ChE"))])),
                                         f("again", "ChA"), f("e2", "ChE")], namespace="fam"), "ref")
     add("err_nested", _rec("Reply", [f("failure", dict(_rec("Failure", [f("code", _enum("Code")), f("msg", "string")]), type="error")),
-                                     f("again", "Code"), f("codes", {"type": "array", "items": "rpc.Code"})], namespace="rpc"), "ref", "rec")
+                                     f("again", "Code"), f("codes", {"type": "array", "items": "rpc.Code"})], namespace="rpc"), "ref", "rec", "heavy")
     add("map_named_twice", _rec("Mt", [f("one", _rec("It", [f("v", "int")])), f("m", {"type": "map", "values": "It"}),
                                       f("again", "It")]), "ref", "heavy")
     add("map_defines_named", _rec("Md", [f("m", {"type": "map", "values": _enum("Em")}), f("e", "Em"),
